@@ -8,7 +8,9 @@ fn main() {
         let body = &v["replay"];
         let reproduced = match prop.as_str() {
             "C07" => c07::replay(body),
-            "C01" | "C03" => c01::replay(body),
+            "C01" => c01::replay(body),
+            "C03" => if body["kind"] == "c03" { c03::replay(body) } else { c01::replay(body) },
+            "C06" | "C09" => c06::replay(body),
             _ => { eprintln!("no replay for {prop}"); false }
         };
         println!("reproduced={reproduced}");
@@ -23,6 +25,8 @@ fn main() {
     match prop.as_str() {
         "C07" => c07::main(tier, seed, outdir),
         "C01" => c01::main(tier, seed, outdir),
+        "C06" => c06::main(tier, seed, outdir),
+        "C03" => c03::main(tier, seed, outdir),
         _ => { eprintln!("unknown property {prop}"); std::process::exit(2); }
     }
 }
